@@ -753,6 +753,77 @@ fn run_random(b: usize, rng: &mut StdRng, len: usize) -> Vec<String> {
     out
 }
 
+/// C07 at manager level: close reports of several connections wait in the manager's channel at the same
+/// time (the application did not poll `next_event()` for a moment, several remotes vanished together, one
+/// protocol force-closed several peers).  Every peer whose last connection is among them must be reported
+/// closed to the application, exactly once.  The log uses the vocabulary of ConnLifeNet (one ledger per
+/// peer: "node" P1..P3 = the local application's view of that peer).
+fn run_close_burst(b: usize, rng: &mut StdRng) -> Vec<String> {
+    let mut w = World::new_tr(-1, -1, false);
+    let mut out = vec![json!({"e": "reset", "sc": format!("mgr-close-burst-{b}"), "src": "mgrburst", "seed": b, "exit": "close-burst",
+        "protos": {"A": [], "B": []}}).to_string()];
+    let names: Vec<String> = w.peers.iter().map(|(n, _)| n.clone()).collect();
+    let ledger = |n: &str| format!("P{}", names.iter().position(|x| x == n).unwrap() + 1);
+    // connections per peer: 1 or 2 inbound connections, each announced through the real manager
+    let mut live: Vec<(String, usize)> = vec![];
+    let mut announced: HashMap<String, usize> = HashMap::new();
+    for n in &names {
+        for _ in 0..rng.gen_range(1..=2usize) {
+            if w.apply(&json!({"a": "inbound"})).is_none() {
+                continue;
+            }
+            let Some((&c, _)) = w.tx.iter().rev().find(|(_, t)| t.st == "in_neg") else { continue };
+            let Some(l) = w.apply(&json!({"a": "in_est", "c": c, "p": n})) else { continue };
+            let _ = l;
+            if w.tx[&c].st != "accepting" {
+                continue;
+            }
+            if let Some(l) = w.apply(&json!({"a": "accept_ok", "c": c})) {
+                for e in l["events"].as_array().unwrap() {
+                    if e["k"] == "est" {
+                        announced.insert(n.clone(), c);
+                        out.push(json!({"e": "app_est", "n": ledger(n), "cid": c}).to_string());
+                    }
+                }
+                live.push((n.clone(), c));
+            }
+        }
+    }
+    // the burst: a random subset of at least two connections is reported closed before the manager is polled again
+    live.shuffle(rng);
+    let k = rng.gen_range(2..=live.len().max(2)).min(live.len());
+    let burst: Vec<(String, usize)> = live[..k].to_vec();
+    for (n, c) in &burst {
+        let p = w.peer(n);
+        w.tx.get_mut(c).unwrap().st = "closed";
+        w.acc.remove(c);
+        w.h.connection_closed(p, *c);
+    }
+    out.push(json!({"e": "burst", "n": "A", "cids": burst.iter().map(|(_, c)| *c).collect::<Vec<_>>()}).to_string());
+    let (_, events) = w.drain("");
+    for e in &events {
+        if e["k"] == "closed" {
+            let n = e["peer"].as_str().unwrap().to_string();
+            // the ledger is per peer: the closed event closes the connection that was announced for the peer
+            out.push(json!({"e": "app_closed", "n": ledger(&n), "cid": announced.get(&n).copied().unwrap_or(0), "reported_cid": e["cid"]}).to_string());
+        }
+    }
+    // peers that still have a connection are closed one by one (ordinary path), then everything must be reported
+    for (n, c) in live[k..].to_vec() {
+        if let Some(l) = w.apply(&json!({"a": "closed", "c": c})) {
+            for e in l["events"].as_array().unwrap() {
+                if e["k"] == "closed" {
+                    out.push(json!({"e": "app_closed", "n": ledger(&n), "cid": announced.get(&n).copied().unwrap_or(0), "reported_cid": e["cid"]}).to_string());
+                }
+            }
+        }
+    }
+    for n in &names {
+        out.push(json!({"e": "quiesce", "n": ledger(n)}).to_string());
+    }
+    out
+}
+
 fn main() {
     let args = Args::parse();
     quiet_panics();
@@ -783,6 +854,10 @@ fn main() {
         nb += n;
         shape_runs = n;
         shape_classes = c;
+    }
+    let nburst = args.u64("closeburst", 0) as usize;
+    for i in 0..nburst {
+        lines.extend(run_close_burst(i, &mut rng));
     }
     let events = lines.iter().filter(|l| l.contains("\"e\":\"step\"")).count();
     write_lines(&out, &lines);
